@@ -148,6 +148,7 @@ CHECKS = {
         parts=[
             dict(name="random", run="TestC13Random", checks=dict(quick=2000, thorough=20000), shards=dict(quick=1, thorough=16)),
             dict(name="overlap", run="TestC13Overlap", checks=dict(quick=500, thorough=8000), shards=dict(quick=4, thorough=16)),
+            dict(name="long", run="TestC13Long", checks=dict(quick=300, thorough=3000), shards=dict(quick=4, thorough=16)),
         ],
     ),
     "C18": dict(
